@@ -21,7 +21,7 @@ ASSUMPTIONS = ["bytes of the fields emitted so far = sum of declared widths of t
                "text front-ends: characters pulled <= end of the hex pair that carries the look-ahead byte (computed by the "
                "reference reader of sim/medium.py); files: bytes read <= that bound rounded up to the read boundary"]
 TIERS = {"quick": {"runs": 12000, "budget": 75}, "thorough": {"runs": 300000, "budget": 780}}
-OTHER_KINDS = ("bytes", "bytearray", "list", "tuple", "memoryview", "array", "iter", "gen")
+OTHER_KINDS = ("bytes", "bytearray", "list", "tuple", "memoryview", "array", "iter", "gen", "byteobjs", "realfile")
 
 
 def make_case(i, rng, tier):
